@@ -255,17 +255,14 @@ def fsGet (fs : FS) (n : Text) : Option File :=
 
 def fsRemove (fs : FS) (n : Text) : FS := fs.filter (fun e => e.1 ≠ n)
 
-/-- create or replace -/
-def fsSet (fs : FS) (n : Text) (f : File) : FS :=
-  match fs with
-  | [] => [(n, f)]
-  | (k, g) :: rest => if k = n then (n, f) :: rest else (k, g) :: fsSet rest n f
+/-- create or replace (the position of an entry in the list is irrelevant: `read_dir` order is arbitrary) -/
+def fsSet (fs : FS) (n : Text) (f : File) : FS := (n, f) :: fsRemove fs n
 
 /-- `fs::rename`: replaces an existing destination -/
 def fsRename (fs : FS) (src dst : Text) : FS :=
   match fsGet fs src with
   | none => fs
-  | some f => fsSet (fsRemove (fsRemove fs src) dst) dst f
+  | some f => fsSet (fsRemove fs src) dst f
 
 /-- `OpenOptions::new().create(true).append(true).open` followed by appending one record -/
 def fsAppend (fs : FS) (n : Text) (r : Nat × Nat) : FS :=
@@ -324,7 +321,7 @@ def compressFile (fs : FS) (src suffix : Text) : FS :=
   | none => fs
   | some f =>
     if suffix = [] then fsRemove fs src
-    else fsSet (fsRemove (fsRemove fs src) (src ++ suffix)) (src ++ suffix) { recs := f.recs, gz := true }
+    else fsSet (fsRemove fs src) (src ++ suffix) { recs := f.recs, gz := true }
 
 def removeAll (fs : FS) : List RolledFile → FS
   | [] => fs
